@@ -34,6 +34,7 @@ pub mod c05;
 pub mod c06;
 pub mod c07;
 pub mod c08;
+pub mod c09;
 pub mod c10;
 pub mod c11;
 pub mod c13;
@@ -57,6 +58,7 @@ pub fn lookup(id: &str) -> Option<&'static dyn Prop> {
         "C06" => Some(&c06::C06),
         "C07" => Some(&c07::C07),
         "C08" => Some(&c08::C08),
+        "C09" => Some(&c09::C09),
         "C10" => Some(&c10::C10),
         "C11" => Some(&c11::C11),
         "C13" => Some(&c13::C13),
